@@ -18,23 +18,33 @@ ASSUMPTIONS = ['x86 and NEON intrinsic models in mirse/models.py follow the vend
                'the scanner functions are private, so no native run validates a scanner-level prediction directly (traces_validated_against_impl = 0 here); the x86 intrinsic models are validated through the whole-parser native replays of C01/C13 on the runtime-dispatch build']
 REQUIRED_WITNESSES = ['stop:end', 'stop:inside']
 
-SCANNERS = [
-    # (variant, function, class, tag)
-    ('swar-rel', 'swar::match_uri_vectored', 'uri', 'swar'), ('swar-rel', 'swar::match_header_value_vectored', 'value', 'swar'),
-    ('swar-rel', 'swar::match_header_name_vectored', 'name', 'swar'),
-    ('x86-rt', 'sse42::match_uri_vectored', 'uri', 'sse42'), ('x86-rt', 'sse42::match_header_value_vectored', 'value', 'sse42'),
-    ('x86-rt', 'avx2::match_uri_vectored', 'uri', 'avx2'), ('x86-rt', 'avx2::match_header_value_vectored', 'value', 'avx2'),
-    ('x86-rt', 'runtime::match_uri_vectored', 'uri', 'runtime'), ('x86-rt', 'runtime::match_header_value_vectored', 'value', 'runtime'),
-    ('x86-rt', 'runtime::match_header_name_vectored', 'name', 'runtime'),
-    ('x86-sse42-ct', 'sse42_compile_time::match_uri_vectored', 'uri', 'sse42-ct'), ('x86-sse42-ct', 'sse42_compile_time::match_header_value_vectored', 'value', 'sse42-ct'),
-    ('x86-sse42-ct', 'sse42_compile_time::match_header_name_vectored', 'name', 'sse42-ct'),
-    ('x86-avx2-ct', 'avx2_compile_time::match_uri_vectored', 'uri', 'avx2-ct'), ('x86-avx2-ct', 'avx2_compile_time::match_header_value_vectored', 'value', 'avx2-ct'),
-    ('x86-avx2-ct', 'avx2_compile_time::match_header_name_vectored', 'name', 'avx2-ct'),
-    ('a64-neon', 'neon::match_uri_vectored', 'uri', 'neon'), ('a64-neon', 'neon::match_header_value_vectored', 'value', 'neon'),
-    ('a64-neon', 'neon::match_header_name_vectored', 'name', 'neon'),
-    ('i686-swar', 'swar::match_uri_vectored', 'uri', 'swar32'), ('i686-swar', 'swar::match_header_value_vectored', 'value', 'swar32'),
-    ('i686-swar', 'swar::match_header_name_vectored', 'name', 'swar32'),
-]
+SCANNER_VARIANTS = ['swar-rel', 'x86-rt', 'x86-sse42-ct', 'x86-avx2-ct', 'a64-neon', 'i686-swar']
+SUFFIX_CLASS = {'match_uri_vectored': 'uri', 'match_header_value_vectored': 'value', 'match_header_name_vectored': 'name'}
+
+
+def discover_scanners(variants=None):
+    """every function of every build variant whose name is <module>::match_{uri,header_value,header_name}_vectored, found in the MIR of
+    the current tree (module names are implementation details: a renamed or merged module is still picked up).
+    returns [(variant, function, class, tag)]; the word-at-a-time scanners are listed once for x86-64 and once for i686"""
+    from .. import harness
+    out = []; seen_swar = False
+    for v in (variants or SCANNER_VARIANTS):
+        P = harness.load_program(v)
+        for name in P.funcs:
+            if '::' not in name or '{' in name: continue
+            mod, fn = name.rsplit('::', 1)
+            if fn not in SUFFIX_CLASS or '<' in mod: continue
+            mod = mod.split('::')[-1]
+            if mod == 'swar' and v not in ('swar-rel', 'i686-swar'): continue
+            tag = {'swar-rel': 'swar', 'i686-swar': 'swar32'}.get(v, mod) if mod == 'swar' else (mod if v in ('x86-rt', 'a64-neon') else f'{mod}@{v}')
+            if v != 'x86-rt' and mod in ('sse42', 'avx2') : continue        # the same source file as in x86-rt
+            out.append((v, name, SUFFIX_CLASS[fn], tag))
+    return out
+
+
+def tag_kind(tag):
+    """dispatchers and thin wrappers are exercised at fewer lengths than the scanners they forward to"""
+    return 'wrapper' if ('runtime' in tag or 'compile_time' in tag or '@' in tag) else ('swar32' if tag == 'swar32' else 'scanner')
 
 
 from ..harness import install_cpu
@@ -51,7 +61,7 @@ def leaf_scan(E, params):
             m = 0
             for b in fixed.get(i, fixed.get(str(i))): m |= 1 << b
         v = E.new_var(m, 'b%d' % i); cells.append(IntV(8, sym.var_node(v)))
-    cpu = install_cpu(E) if 'runtime' in fn else None
+    cpu = install_cpu(E) if variant.startswith('x86-rt') and not fn.startswith(('swar::', 'sse42::', 'avx2::')) else None
     entered = []
     if cpu is not None:
         E.hooks['call'] = lambda path, f, args: entered.append(f.name.split('::')[0]) if (f is not None and f.name.startswith(('avx2::', 'sse42::'))) else None
@@ -121,10 +131,9 @@ def fix_violation(v, params, E):
         # memory-safety failure inside a scanner: the embedding changes what lies after the bytes, so a native run cannot confirm it
         v['rel'] = 'ub'
     v['note'] = 'scanner-level counterexample embedded into a message; the native gate compares the real parser with the reference on it'
-    tag = params['tag']
-    v['variant'] = {'sse42': 'x86-sse42-ct', 'avx2': 'x86-avx2-ct', 'runtime': 'x86-rt', 'sse42-ct': 'x86-sse42-ct', 'avx2-ct': 'x86-avx2-ct',
-                    'neon': 'a64-neon', 'swar32': 'i686-swar'}.get(tag, 'swar-rel')
-    if tag in ('neon', 'swar32'): v['unreplayable'] = f'{tag}: this back end cannot execute on the x86-64 host'
+    tag = params['tag']; variant = params['variants'][0]
+    v['variant'] = {'sse42': 'x86-sse42-ct', 'avx2': 'x86-avx2-ct'}.get(tag, variant)
+    if variant in ('a64-neon', 'i686-swar'): v['unreplayable'] = f'{variant}: this back end cannot execute on the x86-64 host'
 
 
 def leaf_block(E, params):
@@ -164,21 +173,28 @@ BLOCKS = [('swar-rel', 'match_uri_char_8_swar', 'uri', 8, 'array', True), ('swar
           ('a64-neon', 'match_header_name_char_16_neon', 'name', 16, 'ptr', True)]
 
 
+def dispatchers(variant='x86-rt'):
+    return [(fn, cls) for v, fn, cls, tag in discover_scanners([variant]) if not fn.startswith(('swar::', 'sse42::', 'avx2::', 'neon::'))]
+
+
 def jobs(tier, seed):
+    from .. import harness
     J = []
     NOTAB = [b for b in range(256) if b != 9]
     for variant, fn, cls, W, mode, exact in BLOCKS:
+        P_ = harness.load_program(variant)
+        if not any(n == fn or n.endswith('::' + fn) for n in P_.funcs): continue      # internal helper renamed or removed: the scanner-level jobs still cover it
         params = {'variants': [variant], 'fn': fn, 'cls': cls, 'W': W, 'argmode': mode, 'exact': exact, 'prop': 'C12', 'xcheck_every': 0}
         J.append(Job(f'block-{variant}-{fn}', 'mirse.props.c12.leaf_block', params, T(tier, 120, 900),
                      f'{fn} ({variant}) on {W} fully symbolic bytes' + ('' if exact else ' (conservative: may stop early at HTAB, never late)'), groups=['ref'], mandatory=(W <= 16 and 'name' not in fn)))
     topL = 100
-    for variant, fn, cls, tag in SCANNERS:
+    for variant, fn, cls, tag in discover_scanners():
         top = topL
-        if tag == 'neon' and cls == 'name': top = 36
+        if variant == 'a64-neon' and cls == 'name' and not fn.startswith('swar::'): top = 36
         if tier == 'quick':
-            if tag in ('runtime', 'sse42-ct', 'avx2-ct'):       # dispatchers / wrappers around scanners that are checked at every length themselves
+            if tag_kind(tag) == 'wrapper':       # dispatchers / wrappers around scanners that are checked at every length themselves
                 Ls = [0, 7, 8, 16, 17, 33, 40, 66]
-            elif tag == 'swar32':
+            elif tag_kind(tag) == 'swar32':
                 Ls = list(range(0, 10)) + [12, 15, 16, 17, 24, 31, 32, 33, 40, 41]
             else:
                 Ls = [L for L in (list(range(0, 10)) + [12, 15, 16, 17, 24, 31, 32, 33, 34, 35, 39, 40, 41, 47, 48, 49, 63, 64, 65, 66, 71, 80, 96, 97, 100]) if L <= top]
